@@ -266,12 +266,10 @@ def expr_late_probe(sc):
 
         def entry(vals):
             return bool(eval(text, {"__builtins__": {}}, dict(vals))) == want_value  # noqa: S307
-        if sc["copy_after"]:
-            # the copy resolves model and listener together: one entry over the conjunction of the providers of
-            # each name (what a machine constructed with that listener does; see known finding D25)
-            expect = entry({n: (vm[n] and vl[n]) for n in names})
-        else:
-            expect = entry(vm) and entry(vl)
+        # (also on a copy taken afterwards: it attaches its listeners in the groups of its original - until the
+        # repair D30 a copy resolved model and late listener together, one entry over the conjunction of the
+        # providers of each name, as a machine constructed with that listener still does: known finding D25)
+        expect = entry(vm) and entry(vl)
         if fired != expect:
             bad.append(f"{sc['kind']}={text!r}: model {vm}, late listener {vl}: fired={fired}, expected {expect}")
     return {"probe": "expr_late", "bad": bad[:3]}
